@@ -347,7 +347,7 @@ def explore_case(tree, W, main_mode='eager', max_executions=None):
 # ------------------------------------------------------------------------------------------
 # forcing a schedule on the real ProcessPoolExecutor
 # ------------------------------------------------------------------------------------------
-def real_forced(tree, W, trace, assigned_after, expect, tag, timeout=30.0):
+def real_forced(tree, W, trace, assigned_after, expect, tag, timeout=45.0):
     """Force the event order `trace` (list of (kind, stem)) on the real pool.  Returns None if the real run
     conforms to the model, otherwise a description of the disagreement."""
     from loki.jit_build import Obj
@@ -550,16 +550,13 @@ def run(ctx):
                 if n <= 3:
                     picks = tr                               # every distinct event order
                 elif ctx.quick:
-                    picks = [tr[0], tr[-1]] if len(tr) > 1 else tr   # first and last explored
+                    picks = [tr[0], tr[-1]] if len(tr) > 1 else tr   # lexicographically first and last
                 else:
                     picks = finish_order_classes(tr)          # every order of finish events
                 for t in picks:
                     real_items.append(dict(uses=u['uses'], dev=None, seed=ctx.seed, W=W, trace=[list(e) for e in t],
                                            scratch=scratch))
             gf_items.append(dict(uses=u['uses'], W=2 + (len(gf_items) % 2), seed=ctx.seed, scratch=scratch))
-        elif u['dev'] is not None and n <= 3:
-            for W in (2, 3):
-                pass
     dev_skip = os.environ.get('VF_DEV_SKIP_REAL')      # development only: the run then ends as HARNESS-ERROR
     if dev_skip:
         print(f'DEV: explore {t_explore:.1f}s units={len(units)} schedules={schedules} traces={traces} states={states} '
@@ -601,7 +598,7 @@ def run(ctx):
                                         f'baseline trees of <= {full_nmax} files; must yield the same set of event orders'),
         conformance=dict(real_pool_schedules=len(real_items), gfortran_builds=len(gf_items),
                          selection=('every distinct event order for all baseline DAGs on <= 3 files; for the DAGs on 4 files '
-                                    + ('the first and the last explored event order per (DAG, W)' if ctx.quick else
+                                    + ('the lexicographically first and last distinct event order per (DAG, W)' if ctx.quick else
                                        'one event order per distinct order of finish events per (DAG, W)'))),
         wall=dict(explore=round(t_explore, 1), real_pool=round(t_real, 1), gfortran=round(t_gf, 1)),
         rule='cases = every labelled module-dependency DAG on 1..n files x single deviations; per case the serial build and '
